@@ -145,7 +145,6 @@ class C09(Check):
     quick_runs = 400
     thorough_runs = 40000
     chunk = 2
-    run_wall_cap = 3000.0  # a scan that never terminates burns 30 M loop steps per plan before the step cap calls it "hung"
     smoke_runs = 3
 
     def setup_process(self) -> None:
